@@ -218,6 +218,7 @@ fn run<X: El, N: ArrayLength>(sc: &str, f: usize, b: usize, skip: usize) {
         "fold.ref" => { let a = arr::<X, N>(); let _ = (&a).fold(0usize, |acc, x| { tick(); acc + x.idv() }); drop(a); }
         "clone" => { let a = arr::<X, N>(); let r = catch_unwind(AssertUnwindSafe(|| a.clone())); drop(a); match r { Ok(c) => drop(c), Err(e) => std::panic::resume_unwind(e) } }
         "try_from_iter" => { for cnt in [n, n + 1, n.saturating_sub(1)] { let r = GenericArray::<X, N>::try_from_iter(Src::<X> { left: cnt, next_id: 0, _x: std::marker::PhantomData }); drop(r); } }
+        "clone_from" => { let mut a = arr::<X, N>(); let b2: GenericArray<X, N> = GenericArray::generate(|i| X::new(i + 16)); let r = catch_unwind(AssertUnwindSafe(|| a.clone_from(&b2))); drop(a); drop(b2); if let Err(e) = r { std::panic::resume_unwind(e) } }
         "try_boxed_from_iter" => { for cnt in [n, n + 1, n.saturating_sub(1)] { let r = GenericArray::<X, N>::try_boxed_from_iter(Src::<X> { left: cnt, next_id: 0, _x: std::marker::PhantomData }); drop(r); } }
         "remove" => { if n > 0 { let a = arr::<X, N>(); let r = catch_unwind(AssertUnwindSafe(|| dispatch_remove::<X, N>(a, n + skip))); if let Err(e) = r { std::panic::resume_unwind(e) } } }
         _ => { eprintln!("unknown scenario {sc}"); std::process::exit(3); }
